@@ -683,6 +683,20 @@ func (x *Exec) doGo(st *State, fr *Frame, in *ssa.Go) {
 	}
 }
 
+// noteAppend records when the result of append(s, ...) is certain not to share memory that existed at entry: Go
+// appends in place whenever the capacity suffices, so the result is new memory only if s is nil, or its capacity is
+// too small, or its own backing array was allocated during this call (and is itself not a shared append result).
+func (x *Exec) noteAppend(st *State, result string, s Val, newLen string) {
+	if st.appendCond == nil {
+		st.appendCond = map[string]string{}
+	}
+	own := "(> (sarr " + s.S + ") " + x.initAlloc + ")"
+	if c, ok := st.appendCond[s.S]; ok {
+		own = sAnd(own, c)
+	}
+	st.appendCond[result] = "(or (= (sarr " + s.S + ") 0) (< (scap " + s.S + ") " + newLen + ") " + own + ")"
+}
+
 // ---- builtins ----
 
 func (x *Exec) doBuiltin(st *State, name string, argv []Val, c *ssa.CallCommon, rt types.Type, pos token.Pos) Val {
@@ -724,6 +738,7 @@ func (x *Exec) doBuiltin(st *State, name string, argv []Val, c *ssa.CallCommon, 
 			cp := st.fresh("cap", "Int")
 			st.assume("(>= " + cp + " " + nl + ")")
 			ns := st.define("sl", "Slice", "(mk-slice "+r+" 0 "+nl+" "+cp+")")
+			x.noteAppend(st, ns, s, nl)
 			x.w.declUF("bytes2str", "(declare-fun bytes2str ((Array Int Int) Int Int) String)")
 			cls := st.elemClass(et)
 			h := st.hget(cls)
@@ -739,6 +754,7 @@ func (x *Exec) doBuiltin(st *State, name string, argv []Val, c *ssa.CallCommon, 
 			cp := st.fresh("cap", "Int")
 			st.assume("(>= " + cp + " " + nl + ")")
 			ns := st.define("sl", "Slice", "(mk-slice "+r+" 0 "+nl+" "+cp+")")
+			x.noteAppend(st, ns, s, nl)
 			return Val{T: rt, S: ns, Sort: "Slice"}
 		}
 		cls := st.elemClass(et)
@@ -752,6 +768,7 @@ func (x *Exec) doBuiltin(st *State, name string, argv []Val, c *ssa.CallCommon, 
 		st.assume("(forall ((i Int)) (! (=> (and (<= 0 i) (< i (slen " + t.S + "))) (= (select " + na + " (+ (slen " + s.S + ") i)) (select (select " + h + " (sarr " + t.S + ")) (+ (soff " + t.S + ") i)))) :pattern ((select " + na + " (+ (slen " + s.S + ") i)))))")
 		st.hset(cls, "(store "+h+" "+r+" "+na+")")
 		ns := st.define("sl", "Slice", "(mk-slice "+r+" 0 "+nl+" "+cp+")")
+		x.noteAppend(st, ns, s, nl)
 		return Val{T: rt, S: ns, Sort: "Slice"}
 	case "delete":
 		m, kv := argv[0], argv[1]
